@@ -131,12 +131,17 @@ let named_of_sexp (s : sexp) : named =
         | L [A "e"; h] -> en := hx h :: !en
         | L [A "h"; h] -> he := Some (text_doc (hx h))
         | L (A "hd" :: frs) ->
-          he := Some (List.map (function
-              | L [A "text"; h] -> TText (SText, hx h)
-              | L [A "literal"; h] -> TText (SLiteral, hx h)
-              | L [A "emphasis"; h] -> TText (SEmphasis, hx h)
-              | L [A "invalid"; h] -> TText (SInvalid, hx h)
-              | _ -> failwith "bad fragment") frs)
+          let emb st h = [TStart BInlineBlock; TText (st, hx h); TEnd BInlineBlock] in
+          he := Some (List.concat (List.map (function
+              | L [A "text"; h] -> [TText (SText, hx h)]
+              | L [A "literal"; h] -> [TText (SLiteral, hx h)]
+              | L [A "emphasis"; h] -> [TText (SEmphasis, hx h)]
+              | L [A "invalid"; h] -> [TText (SInvalid, hx h)]
+              | L [A "doc-text"; h] -> emb SText h
+              | L [A "doc-literal"; h] -> emb SLiteral h
+              | L [A "doc-emphasis"; h] -> emb SEmphasis h
+              | L [A "doc-invalid"; h] -> emb SInvalid h
+              | _ -> failwith "bad fragment") frs))
         | _ -> failwith "bad named field") fields;
     { n_short = List.rev !sh; n_long = List.rev !lo; n_env = List.rev !en; n_help = !he }
   | _ -> failwith "bad named"
